@@ -9,6 +9,7 @@ import (
 	"bufio"
 	"bytes"
 	"context"
+	"encoding/json"
 	"errors"
 	"fmt"
 	"io"
@@ -33,6 +34,8 @@ type Config struct {
 	FlipResponse  int
 	WriterError   int
 	Delay         int
+	DropElement   int  // permille: remove one designed element (query key, header, cookie, top-level JSON body key) from the request
+	Droppable     func(loc, name string) bool // which elements may be removed (nil: none)
 	Yields        bool // scheduling points at transport I/O
 	FlipRegion    func(wire []byte) (lo, hi int) // region of the request in which flips may land (nil: body)
 	RewriteHeader map[string][]string            // response header rewrites (name -> candidate values), applied with RewriteRate
@@ -47,6 +50,9 @@ type Exchange struct {
 	ReqDelivered   []byte // as seen by the server (after faults), nil if dropped
 	ReqFault       string
 	ReqFaultAt     int
+	ReqWireSent    []byte // drop_element: the request before the element was removed
+	DroppedLoc     string // drop_element: query | header | cookie | body
+	DroppedName    string
 	Parsed         bool // the server side could parse the request head
 	Served         int  // number of times the handler ran (dup_request: 2)
 	Status         int
@@ -193,6 +199,15 @@ func (n *Net) do(req *http.Request, ex *Exchange) (*http.Response, error) {
 	}
 	// 3. faults on the request
 	end := io.EOF
+	if n.hit("drop-element", n.Cfg.DropElement) && n.Cfg.Droppable != nil {
+		if nd, loc, name := n.dropElement(data); nd != nil {
+			data = nd
+			ex.ReqWireSent = ex.ReqWire
+			ex.ReqWire = append([]byte(nil), nd...) // the request as it now stands is what every oracle judges
+			ex.DroppedLoc, ex.DroppedName = loc, name
+			ex.Faults = append(ex.Faults, "drop_element")
+		}
+	}
 	switch {
 	case n.hit("drop-request", n.Cfg.DropRequest):
 		ex.ReqFault = "drop_request"
@@ -456,4 +471,98 @@ func (n *Net) deliver(req *http.Request, r *recorder, ex *Exchange) (*http.Respo
 		return nil, fmt.Errorf("%w: %v", ErrTransport, err)
 	}
 	return cresp, nil
+}
+
+
+// dropElement removes one droppable element from a serialised request: the
+// request stays well-formed HTTP, it just lacks one thing the client sent (what
+// a hand-written client, a proxy that strips a header, or a stale cache of the
+// API description produces).
+func (n *Net) dropElement(wire []byte) ([]byte, string, string) {
+	req, err := http.ReadRequest(bufio.NewReader(bytes.NewReader(wire)))
+	if err != nil {
+		return nil, "", ""
+	}
+	body, _ := io.ReadAll(req.Body)
+	type el struct{ loc, name string }
+	var els []el
+	q := req.URL.Query()
+	for k := range q {
+		if n.Cfg.Droppable("query", k) {
+			els = append(els, el{"query", k})
+		}
+	}
+	for k := range req.Header {
+		if k != "Cookie" && n.Cfg.Droppable("header", k) {
+			els = append(els, el{"header", k})
+		}
+	}
+	for _, c := range req.Cookies() {
+		if n.Cfg.Droppable("cookie", c.Name) {
+			els = append(els, el{"cookie", c.Name})
+		}
+	}
+	var obj map[string]json.RawMessage
+	if len(body) > 0 && json.Unmarshal(body, &obj) == nil {
+		for k := range obj {
+			if n.Cfg.Droppable("body", k) {
+				els = append(els, el{"body", k})
+			}
+		}
+	}
+	if len(els) == 0 {
+		return nil, "", ""
+	}
+	sort.Slice(els, func(i, j int) bool { return els[i].loc+"/"+els[i].name < els[j].loc+"/"+els[j].name })
+	e := els[n.Tape.Draw("drop-which", len(els))]
+	switch e.loc {
+	case "query":
+		q.Del(e.name)
+		req.URL.RawQuery = q.Encode()
+	case "header":
+		req.Header.Del(e.name)
+	case "cookie":
+		cs := req.Cookies()
+		req.Header.Del("Cookie")
+		for _, c := range cs {
+			if c.Name != e.name {
+				req.AddCookie(c)
+			}
+		}
+	case "body":
+		delete(obj, e.name)
+		keys := make([]string, 0, len(obj))
+		for k := range obj {
+			keys = append(keys, k)
+		}
+		sort.Strings(keys)
+		var b bytes.Buffer
+		b.WriteByte('{')
+		for i, k := range keys {
+			if i > 0 {
+				b.WriteByte(',')
+			}
+			kb, _ := json.Marshal(k)
+			b.Write(kb)
+			b.WriteByte(':')
+			b.Write(obj[k])
+		}
+		b.WriteByte('}')
+		body = b.Bytes()
+	}
+	req.Body = io.NopCloser(bytes.NewReader(body))
+	req.ContentLength = int64(len(body))
+	req.TransferEncoding = nil
+	if len(body) == 0 {
+		req.Body = http.NoBody
+	}
+	req.URL.Scheme, req.URL.Host = "", ""
+	req.RequestURI = ""
+	var out bytes.Buffer
+	req.URL.Host = req.Host
+	req.URL.Scheme = "http"
+	if err := req.Write(&out); err != nil {
+		return nil, "", ""
+	}
+	return out.Bytes(), e.loc, e.name
 }
